@@ -157,6 +157,6 @@ CHECKS = {
         "technique": "runtime monitoring: single-step instruction/address traces of the real amd64 assembly routines (ptrace), checked offline by a trace-equality monitor and a dynamic taint interpreter",
         "rule": "each case = one invocation of an assembly routine (expandKeyAsm, cryptoBlockAsm x1..x16 with enc and dec schedules, gHashBlocks, copyAsm, needExpand, sealAsm, openAsm) single-stepped with all buffers at fixed addresses; per length configuration >=4 content assignments (random A/B, all-zero, all-0xFF, single-bit key neighbours) must give identical (pc, effective address) sequences; openAsm is compared within its verdict class (4 authentic, 5 forged incl. first/last/middle tag bit, ciphertext bit, all-zero); a taint interpreter over the same trace (sources: round keys, key, nonce, aad, plaintext/ciphertext, H, tag) flags tainted address registers and tainted flags at Jcc/SETcc/CMOVcc except one verdict jump per openAsm call; configurations drive every loop label taken and not taken (quick ~60 GCM configurations; thorough every plaintext length 0..1100, aad 0..300, nonce 1..300, tags 12..16); a class is (routine, length configuration, verdict class)",
         "assumptions": ["covers the instructions executed by the traced configurations (static coverage per routine is reported; unexecuted instructions are listed)", "objdump decodes every instruction of the routines (checked: no '(bad)')", "microarchitectural effects (variable latency, port contention) are invisible", "arm64 routines (asm_arm64.s, gcm_arm64.s) cannot be executed in this sandbox and are not covered"],
-        "units": lambda tier: [{"name": "vtrace", "engine": "engine_vtrace", "prop": "C09", "shards": 16}],
+        "units": lambda tier: [{"name": "vtrace", "engine": "engine_vtrace", "prop": "C09", "shards": 16}, {"name": "public-paths", "engine": "engine_paths"}],
     },
 }
